@@ -13,7 +13,7 @@ def plan(tier: str, seed: int) -> Plan:
     thorough = tier == "thorough"
     T = 500 if thorough else 170
     conds: List[Condition] = []
-    for fn, n, plumb in (("path_cmd", 18, [0, 7]), ("pointer_cmd", 13, [1, 6]), ("patch_cmd", 12, [0, 2])):
+    for fn, n, plumb in (("path_cmd", 18, [0, 7]), ("pointer_cmd", 13, [1, 6]), ("patch_cmd", 13, [0, 2])):
         step = 3 if fn == "path_cmd" else 4
         for lo in range(0, n, step):
             conds.append(Condition(f"{fn}:semantics:{lo}-{lo + step - 1}", "cli", H, fn, {"mode": "semantics", "lo": lo, "hi": lo + step - 1, "ndocs": 6 if thorough else 4}, T,
